@@ -20,7 +20,8 @@ using Real = REALT;
 using DataT = DATAT;
 constexpr int Dim = DIM;
 constexpr long NbData = Dim + NX;
-constexpr int RealCode = std::is_same<Real, float>::value ? 1 : 0;
+// positions are generated in the narrower of the two types so that they are exactly representable in both
+constexpr int RealCode = (std::is_same<Real, float>::value || std::is_same<DataT, float>::value) ? 1 : 0;
 
 using Config = TbfSpacialConfiguration<Real, Dim>;
 using SI = TbfMortonSpaceIndex<Dim, Config, false>;
@@ -42,7 +43,7 @@ struct Built {
 
 std::string build(const FmmCase& c, long blockSize, long envBlock, int ogpp, Built& b){
     b.mt = rm::ModelTree();
-    b.mt.buildFrom(c, c.pos);
+    b.mt.build<Real>(c, c.pos);
     if(!b.mt.allInBox) return "SKIP position outside the box (generator)";
     if(!b.mt.allSound) return "SKIP ambiguous leaf (generator)";
     b.in = fh::makeInput<Real, DataT, NbData>(c, c.pos, c.extra, Dim, c.nextra);
